@@ -313,6 +313,11 @@ class SsbScriptCompilerListener(SsbScriptListener):
         self._labels_before_op.append(label)
 
     def _enlarge_routine_info(self) -> None:
+        if self._active_routine_id < 0 or self._active_routine_id > len(self.routine_infos):
+            # Routine ids start at 0 and increment by one, there must not be a gap.
+            raise SsbCompilerError(
+                f"Invalid routine id {self._active_routine_id}: routine ids must start at 0 and must not leave a gap."
+            )
         if len(self.routine_infos) - 1 < self._active_routine_id:
             needed = self._active_routine_id - len(self.routine_infos) + 1
             for i in range(0, needed):
